@@ -8,11 +8,15 @@ namespace Anthem
 inductive FTree
   | file (name : String)
   | dir (name : String) (children : List FTree)
+  /-- a symbolic link to a regular file: `WalkDir` does not follow links, and `file_type().is_file()` is false for the
+      link itself, so it plays no role - inside a directory and when it is named on the command line alike -/
+  | link (name : String)
   deriving Repr, Inhabited
 
 def FTree.name : FTree → String
   | .file n => n
   | .dir n _ => n
+  | .link n => n
 
 /-- `Path::extension` of a file name: text after the last `.`, unless there is no `.` or the only
     `.` is the first character. -/
@@ -45,6 +49,7 @@ def sortTrees (l : List FTree) : List FTree := l.foldr insertTree []
 partial def walkPaths (pre : String) : FTree → List String
   | .file n => [pre ++ n]
   | .dir n cs => (sortTrees cs).flatMap (walkPaths (pre ++ n ++ "/"))
+  | .link _ => []
 
 structure Files where
   programs : List String := []
